@@ -5,8 +5,18 @@ KEYS = ["a", "b", "c", "name", "id", "k1", "x y", "a.b"]
 STRS = ["a", "ab", "b", "x", "zz", "1", "true", "Hello"]
 
 
-def rand_doc(rng, max_nodes=25, max_depth=4, anchor_names=None, anchor_p=0.1, alias_p=0.15):
-    """anchor_names: None = at most one anchor "A" (the default corpus); else the pool of names, each defined at most once."""
+def rand_doc(rng, max_nodes=25, max_depth=4, anchor_names=None, anchor_p=0.1, alias_p=0.15, container_anchor=None):
+    """anchor_names: None = at most one anchor "A" (the default corpus); else the pool of names, each defined at most once.
+    container_anchor: a name given to one non-root Hash / Array (never aliased), so scalar anchors may live inside an anchored container."""
+    doc = _rand_doc(rng, max_nodes, max_depth, anchor_names, anchor_p, alias_p)
+    if container_anchor:
+        conts = [i for i, n in enumerate(doc) if n["k"] in ("map", "seq") and n["par"] != 0 and n["kids"]]
+        if conts:
+            doc[rng.choice(conts)]["anchor"] = container_anchor
+    return doc
+
+
+def _rand_doc(rng, max_nodes, max_depth, anchor_names, anchor_p, alias_p):
     doc = []
     budget = [rng.randint(3, max_nodes)]
     anchors = []
